@@ -51,6 +51,7 @@ type GenOpts struct {
 	// FailingSecondMsg: price transactions may carry a second message with the validator's next
 	// nonce that fails in execution (C13); AvoidFailingSecondMsg, if set, keeps them out again
 	// (exclusion by construction of a listed finding) and counts how often.
+	RestartPct            int // share of the block boundaries at which the node is restarted (application re-opened on the same database)
 	TwoSignerPct          int // share of the price transactions that carry the same report by two validators, each signing itself
 	FailingSecondMsg      bool
 	AvoidFailingSecondMsg *int
@@ -279,6 +280,9 @@ func (m *Machine) draw0(t *rapid.T, g *GenOpts) Action {
 		a.Dt = rapid.IntRange(1, maxDt).Draw(t, "dt")
 		if rapid.IntRange(0, 19).Draw(t, "gap?") == 0 {
 			a.Dt = rapid.IntRange(60, 400).Draw(t, "gap")
+		}
+		if g.RestartPct > 0 && pct(t, g.RestartPct, "restart?") {
+			a.Restart = true
 		}
 		if g.DowntimePct > 0 && pct(t, g.DowntimePct, "downtime?") {
 			// some validators miss the commit (their keys are taken from the current set, so that
